@@ -12,6 +12,8 @@ class Program:
         self.aliases = {}     # stable name -> go/ssa function key   (pkg.var.Field for closures stored in package-level literals)
         self.display = {}     # go/ssa function key -> stable name
         self._closure_aliases()
+        from . import names as _names
+        self.renamed = _names.apply(self)      # harmless renamings of variables mapped back to the recorded names
         self.const_globals = self._const_globals()
 
     def _separate_register_names(self):
